@@ -1440,6 +1440,11 @@ func emitPkg(p *pkgInfo, ns string, fns []spec) string {
 		sb.WriteString(translate(p, f.name, nil, ""))
 		sb.WriteString("\n")
 		n := len(elemParams(fd))
+		if f.name == "_butterflyGeneric" {
+			// both arguments the same element (the result that is stored last survives)
+			sb.WriteString(translate(p, f.name, []int{0, 0}, "_ab"))
+			sb.WriteString("\n")
+		}
 		if !f.aliases {
 			continue
 		}
